@@ -506,7 +506,7 @@ func (r *Renderer) RenderLit(l *Lit, mayNumber bool) string {
 // and cfg[`a`]["b"] all denote the string "cfg.a.b".
 func (r *Renderer) renderBare(s string) string {
 	plain := isPlainBare(s)
-	if plain && (r.Plain || r.KeepSpell || r.R == nil || r.R.Intn(3) > 0) {
+	if plain && (r.Plain || r.KeepSpell || r.R == nil || r.R.Intn(2) > 0) {
 		return s
 	}
 	chance := func(n int) bool { return r.R != nil && !r.Plain && r.R.Intn(n) == 0 }
@@ -518,8 +518,8 @@ func (r *Renderer) renderBare(s string) string {
 	sb.WriteString(parts[0])
 	for i := 1; i < len(parts); {
 		j := i + 1
-		if chance(3) {
-			for j < len(parts) && chance(2) {
+		if chance(2) {
+			for j < len(parts) && !chance(3) {
 				j++ // merge several parts into one index string containing dots
 			}
 		}
@@ -825,7 +825,17 @@ func RandSel(r *rand.Rand) Sel {
 
 func RandLit(r *rand.Rand) *Lit {
 	s := pick(r, LitPool)
-	switch r.Intn(6) {
+	switch r.Intn(7) {
+	case 6:
+		// dotted text: as a bare value it can be spelled with index parts
+		s = pick(r, IdentPool)
+		for i, n := 0, 1+r.Intn(3); i < n; i++ {
+			if r.Intn(2) == 0 {
+				s += "." + pick(r, IdentPool)
+			} else {
+				s += "." + pick(r, PartPool)
+			}
+		}
 	case 0:
 		s = pick(r, IdentPool)
 	case 1:
